@@ -143,6 +143,8 @@ func (r *wRun) newJob(j int) {
 				res = "other"
 			}
 		}
+		// log the return first: the controller acts on the job only after it sees the new phase
+		r.log.add(map[string]any{"ev": "newjob_ret", "j": j, "res": res})
 		r.mu.Lock()
 		switch res {
 		case "ok":
@@ -153,7 +155,6 @@ func (r *wRun) newJob(j int) {
 			js.phase = "rejected"
 		}
 		r.mu.Unlock()
-		r.log.add(map[string]any{"ev": "newjob_ret", "j": j, "res": res})
 	})
 }
 
